@@ -152,8 +152,60 @@ def dunder(case, idx):
     return dict(lookups=lookups, failures=failures[:10])
 
 
+def include_case(case, idx):
+    """Names inherited through ffi.include(): tags and typedefs declared by ANY included module (first or
+    later sibling, or deeper in a chain) must be found through the including module's tables."""
+    names = case["names"]
+    shape = case.get("shape", "siblings")
+    failures, lookups = [], 0
+    work = os.environ["VERIF_WORK"]
+    k = max(2, min(3, len(names)))
+    parts = [names[i::k] for i in range(k)]
+    mods = []
+    for j, part in enumerate(parts):
+        ffi = cffi.FFI()
+        if shape == "chain" and mods:
+            ffi.include(mods[-1][0])
+        cdef = []
+        for i, n in enumerate(part):
+            cdef.append("struct s%s { char x[%d]; };" % (n, 3 + j + 2 * i))
+            cdef.append("typedef struct { char y[%d]; } t%s;" % (5 + j + 2 * i, n))
+        ffi.cdef("\n".join(cdef))
+        modname = "_c25_inc_%d_%d" % (idx, j)
+        ffi.set_source(modname, None)
+        mods.append((ffi, modname, part, j))
+    top = cffi.FFI()
+    if shape == "chain":
+        top.include(mods[-1][0])
+    else:
+        for m in mods:
+            top.include(m[0])
+    top.cdef("struct top%d { int q; };" % idx)
+    topname = "_c25_inc_%d_top" % idx
+    top.set_source(topname, None)
+    sys.path.insert(0, work)
+    for ffi, modname, part, j in mods:
+        ffi.emit_python_code(os.path.join(work, modname + ".py"))
+    top.emit_python_code(os.path.join(work, topname + ".py"))
+    topmod = importlib.import_module(topname)
+    for ffi, modname, part, j in mods:
+        for i, n in enumerate(part):
+            lookups += 2
+            for what, want in (("struct s" + n, 3 + j + 2 * i), ("t" + n, 5 + j + 2 * i)):
+                try:
+                    got = topmod.ffi.sizeof(what)
+                    if got != want:
+                        failures.append("%s (declared by included module %d, shape %s) resolves to another entry: "
+                                        "size %d, declared %d" % (what, j, shape, got, want))
+                except Exception as e:
+                    failures.append("%s declared by included module %d (shape %s) is not found through the including "
+                                    "module: %s: %s" % (what, j, shape, type(e).__name__, e))
+    return dict(lookups=lookups, failures=failures[:10])
+
+
 def main(payload):
-    return dict(results=[(dunder(c, i) if c["mode"] == "dunder" else one(c, i))
+    return dict(results=[(dunder(c, i) if c["mode"] == "dunder" else include_case(c, i) if c["mode"] == "include"
+                          else one(c, i))
                          for i, c in enumerate(payload["cases"])])
 
 
